@@ -191,6 +191,10 @@ class Model:
                 out.append(("open", n[1], n[2], owner.idx if owner is not None else None))
                 self.render_nodes(n[3], env, owner, prov, out, ck)
                 out.append(("close", n[1]))
+            elif k == "include":
+                # {% include %} of a partial holding exactly these nodes: same context, same output as writing them inline
+                self.node_renders -= 1
+                self.render_nodes(n[3], env, owner, prov, out, ck)
             elif k == "comp":
                 inst = self.instantiate(n, env, owner, prov, ck)
                 if ck is None:
@@ -341,6 +345,8 @@ class Model:
                     walk(n[3], e.push("with", {n[1]: self.ev(n[2], e)}))
                 elif k == "elem":
                     text.append("<%s>" % n[1])
+                    walk(n[3], e)
+                elif k == "include":
                     walk(n[3], e)
                 elif k == "fill":
                     name = self.ev(n[1], e)
